@@ -73,9 +73,11 @@ type simCluster struct {
 	committed map[uint64]string    // index -> entry (term/type/data)
 	nextPay   int
 	// abstract shadow (vh raft abs): static membership, no snapshots; every event is reported to coq/Abs/Exec.v
-	static bool // no membership changes
-	nosnap bool // no snapshots
-	calm   bool // elections and crashes are rare while a leader exists
+	preImp map[uint64]bool // importantIDs of the event's node before the event
+	evImp  map[uint64]bool // nodes with an action in the configuration the event submits
+	static bool            // no membership changes
+	nosnap bool            // no snapshots
+	calm   bool            // elections and crashes are rare while a leader exists
 	abs    *absShadow
 	hint   absHint
 	hintp  *absHint // filled in by the event itself (a request written by a replication)
@@ -117,6 +119,26 @@ func (c *simCluster) addNode(id uint64, bootstrap map[uint64]Node) error {
 	return nil
 }
 
+// importantIDs: followers of leader n whose position in a map iteration can change the outcome of an event.
+func (c *simCluster) importantIDs(n *simNode) map[uint64]bool {
+	imp := map[uint64]bool{}
+	if n.l == nil {
+		return imp
+	}
+	for id, nd := range n.r.configs.Latest.Nodes {
+		if id == n.r.nid {
+			continue
+		}
+		if nd.Action != None {
+			imp[id] = true
+		}
+		if rp := n.l.repls[id]; rp != nil && nd.Voter && rp.status.noContact.IsZero() && rp.status.matchIndex == n.r.lastLogIndex {
+			imp[id] = true
+		}
+	}
+	return imp
+}
+
 func (c *simCluster) options(n *simNode, newprev, newremovelte uint64) string {
 	var order []string
 	if n.cur == Leader || n.r.state == Leader {
@@ -132,8 +154,21 @@ func (c *simCluster) options(n *simNode, newprev, newremovelte uint64) string {
 			l = append(l, id)
 		}
 		sort.Slice(l, func(i, j int) bool { return l[i] < l[j] })
-		if len(l) > 4 { // keep the permutation oracle small; beyond that the listed order is tried only
+		if len(l) > 4 {
+			// keep the permutation oracle small: only the relative order of the followers whose visit can have an
+			// effect matters (a pending action, or a ready transfer target), before or after the event
+			imp := c.importantIDs(n)
+			for id := range c.preImp {
+				imp[id] = true
+			}
+			for id := range c.evImp {
+				imp[id] = true
+			}
 			l = l[:0]
+			for id := range imp {
+				l = append(l, id)
+			}
+			sort.Slice(l, func(i, j int) bool { return l[i] < l[j] })
 		}
 		for _, id := range l {
 			order = append(order, fmt.Sprint(id))
@@ -369,6 +404,7 @@ func (c *simCluster) run(n *simNode, desc, ev string, fn func() (response, []str
 	preCommit := n.r.commitIndex
 	preRemoveLTE := n.l.removeLTE
 	var o stepObs
+	c.preImp = c.importantIDs(n)
 	hint := c.hint
 	c.hint = absHint{}
 	hintp := c.hintp
@@ -1426,10 +1462,22 @@ func (c *simCluster) changeConfig(n *simNode) {
 	}
 	t := ChangeConfig(nc).(changeConfig)
 	st := c.newTask(id, t, "changeConfig")
+	c.evImp = actionIDs(nc)
 	c.run(n, "changeConfig", fmt.Sprintf("(ELeader (LChangeConfig %d %s))", st.id, coqConfig(nc)), func() (response, []string) {
 		n.l.onChangeConfig(t)
 		return nil, nil
 	})
+	c.evImp = nil
+}
+
+func actionIDs(cfg Config) map[uint64]bool {
+	m := map[uint64]bool{}
+	for id, nd := range cfg.Nodes {
+		if nd.Action != None {
+			m[id] = true
+		}
+	}
+	return m
 }
 
 func (t rpcType) String() string {
